@@ -28,12 +28,12 @@ Refused(flags, twopl, stab) ==
     \/ stab /\ ~twopl
 
 (* the criteria in increasing position order, extras kept with their criterion *)
+RECURSIVE ByPos(_, _)        \* the indices D of flags, sorted by position number
+ByPos(flags, D) == IF D = {} THEN <<>>
+                   ELSE LET i == CHOOSE i \in D : \A j \in D : flags[i].pos <= flags[j].pos
+                        IN  <<i>> \o ByPos(flags, D \ {i})
 OrderOf(flags) ==
-    LET RECURSIVE ByPos(_)
-        ByPos(D) == IF D = {} THEN <<>>
-                    ELSE LET i == CHOOSE i \in D : \A j \in D : flags[i].pos <= flags[j].pos
-                         IN  <<i>> \o ByPos(D \ {i})
-        idx == ByPos(DOMAIN flags)
+    LET idx == ByPos(flags, DOMAIN flags)
     IN  [k \in DOMAIN idx |-> [c |-> flags[idx[k]].c, x |-> flags[idx[k]].x]]
 
 (* --------------------------- Mech ------------------------------------- *)
